@@ -123,4 +123,106 @@ theorem C08_inbound_record_survives_history (caps : Caps) (pre ops : List Op) (c
   obtain ⟨o1, o2⟩ := q08_OpsSchedOK_app hok
   exact C08_inbound_record_survives_run _ ops cid k (WF_run caps pre f1) (SyncInv_run caps pre f1 o1) f2 o2 h hne
 
+/-! ## The accepted QoS 2 PUBLISH, and its retransmission while the exchange is open -/
+
+/-- **C08, the accepted publish.**  An inbound QoS 2 PUBLISH that passes the gates `AcceptedQ2` (live network client,
+    valid non-empty topic, identifier ≠ 0, receive quota left, write permission, NO in-flight record under the
+    identifier, no hook mode, the broker grants QoS 2), on the connection of client object `i`: the op's outputs are
+    PUBREC with reason 0x00 to the publisher FIRST, then what ONE call of `publishToSubscribers` writes
+    (`q2Routed … = publishToSubscribers (pubrecFiled (retainedState s m) i id) m`, `m = inboundMsg …`: the state with the
+    retained store updated and the PUBREC record filed), then the release tail (the publisher's own deferred messages,
+    `C08_accepted_qos2_tail`). -/
+theorem C08_accepted_qos2_shape (s : Server) (conn i : Nat) (dup retain : Bool) (id : Nat) (topic payload : Str) (me : Nat)
+    (hc : assocGet s.connOf conn = some i) (h : AcceptedQ2 s i id topic) :
+    step s (.recv conn (.publish 2 dup retain id topic payload me none)) =
+      ((nextImmediate (nextImmediate (q2Routed s i dup retain id topic payload me).1 i).1 i).1,
+       [Out.wrote (getObj s i).conn (.ack (getObj s i).ver 5 id 0)] ++ (q2Routed s i dup retain id topic payload me).2 ++
+       (nextImmediate (q2Routed s i dup retain id topic payload me).1 i).2 ++
+       (nextImmediate (nextImmediate (q2Routed s i dup retain id topic payload me).1 i).1 i).2) :=
+  step_recv_publish_q2 s conn i dup retain id topic payload me hc h
+
+/-- the release tail of that op: at most two outputs, all on the PUBLISHER's connection -/
+theorem C08_accepted_qos2_tail (s : Server) (i : Nat) (dup retain : Bool) (id : Nat) (topic payload : Str) (me : Nat) :
+    ((nextImmediate (q2Routed s i dup retain id topic payload me).1 i).2 ++
+      (nextImmediate (nextImmediate (q2Routed s i dup retain id topic payload me).1 i).1 i).2).length ≤ 2 ∧
+    ∀ x ∈ (nextImmediate (q2Routed s i dup retain id topic payload me).1 i).2 ++
+      (nextImmediate (nextImmediate (q2Routed s i dup retain id topic payload me).1 i).1 i).2,
+      ∃ pk, x = Out.wrote (getObj s i).conn pk := by
+  have := nextImmediate_twice_out (q2Routed s i dup retain id topic payload me).1 i
+  rw [q2Routed_conn] at this
+  exact this
+
+/-- … and it files the PUBREC record: the exchange is open afterwards, its record is `pubrecMsg s id` (type 5, the
+    identifier, created NOW, expiry NOW + the server's maximum message expiry) -/
+theorem C08_accepted_qos2_opens (s : Server) (conn i : Nat) (dup retain : Bool) (id : Nat) (topic payload : Str)
+    (me : Nat) (cid : Str) (hw : WF s) (hc : assocGet s.connOf conn = some i) (h : AcceptedQ2 s i id topic)
+    (hreg : assocGet s.clients cid = some i) :
+    InOpenRec (step s (.recv conn (.publish 2 dup retain id topic payload me none))).1 cid id (pubrecMsg s id) ∧
+    InOpen (step s (.recv conn (.publish 2 dup retain id topic payload me none))).1 cid id := by
+  have := step_recv_publish_q2_open s conn i dup retain id topic payload me cid hw hc h hreg
+  exact ⟨this, (InOpen_iff _ cid id).mpr ⟨_, this⟩⟩
+
+/-- **C08, the retransmission, op level.**  While the exchange `id` of `cid` is open (`InOpen`), a QoS 2 PUBLISH with
+    that identifier on the connection of the session's object `i` (gates `RetransmitGates`: live network client, valid
+    topic, receive quota left, write permission — those of the original publish):
+    * the op is PUBREC with reason 0x91 to THAT connection (F08: a failure code to an MQTT 5 client; an MQTT 3 client
+      is written a plain PUBREC — `renderAck` puts reason codes on the wire for version 5 only), followed by the release
+      tail, and the state is the state before but for those releases: neither `publishToSubscribers` nor `retainMsg`
+      is called;
+    * every output is a write to that connection (so: no `Out.inline`, no write to any subscriber);
+    * every output other than the PUBREC is one of the PUBLISHER's own deferred in-flight messages (`expiry < 0`) being
+      released — never the retransmitted message;
+    * the retained store, the index and every other object (with its in-flight records) are unchanged. -/
+theorem C08_retransmit_not_forwarded_op (s : Server) (conn i : Nat) (dup retain : Bool) (id : Nat) (topic payload : Str)
+    (me : Nat) (cid : Str) (hc : assocGet s.connOf conn = some i) (hreg : assocGet s.clients cid = some i)
+    (hopen : InOpen s cid id) (h : RetransmitGates s i id topic) :
+    step s (.recv conn (.publish 2 dup retain id topic payload me none)) =
+      ((nextImmediate (nextImmediate s i).1 i).1,
+       [Out.wrote (getObj s i).conn (.ack (getObj s i).ver 5 id 0x91)] ++ (nextImmediate s i).2 ++
+       (nextImmediate (nextImmediate s i).1 i).2) ∧
+    (∀ x ∈ (step s (.recv conn (.publish 2 dup retain id topic payload me none))).2,
+      ∃ pk, x = Out.wrote (getObj s i).conn pk) ∧
+    (∀ x ∈ (step s (.recv conn (.publish 2 dup retain id topic payload me none))).2,
+      x = Out.wrote (getObj s i).conn (.ack (getObj s i).ver 5 id 0x91) ∨
+      ∃ m ∈ (getObj s i).inflight, m.expiry < 0 ∧ x ∈ writeMsg s i m) ∧
+    (step s (.recv conn (.publish 2 dup retain id topic payload me none))).1.rmsgs = s.rmsgs ∧
+    (step s (.recv conn (.publish 2 dup retain id topic payload me none))).1.topics = s.topics ∧
+    (∀ x, x ≠ i → getObj (step s (.recv conn (.publish 2 dup retain id topic payload me none))).1 x = getObj s x) := by
+  obtain ⟨pki, hrec, ht, _⟩ := hopen.rec_at hreg
+  have e := step_recv_publish_dup s conn i dup retain id topic payload me pki hc h hrec ht
+  obtain ⟨a1, a2, a3⟩ := nextImmediate_store s i
+  obtain ⟨b1, b2, b3⟩ := nextImmediate_store (nextImmediate s i).1 i
+  refine ⟨e, ?_, ?_, ?_, ?_, ?_⟩
+  · rw [e]
+    intro x hx
+    rw [List.append_assoc] at hx
+    rcases List.mem_append.mp hx with hx | hx
+    · rw [List.mem_singleton] at hx; exact ⟨_, hx⟩
+    · exact (nextImmediate_twice_out s i).2 x hx
+  · rw [e]
+    intro x hx
+    rw [List.append_assoc] at hx
+    rcases List.mem_append.mp hx with hx | hx
+    · rw [List.mem_singleton] at hx; exact Or.inl hx
+    · exact Or.inr (nextImmediate_twice_deferred s i x hx)
+  · rw [e]; exact b1.trans a1
+  · rw [e]; exact b2.trans a2
+  · rw [e]; intro x hx; exact (b3 x hx).trans (a3 x hx)
+
+/-- … and when the publisher holds no deferred message (`0 ≤ expiry` for all its in-flight records): the op is that one
+    PUBREC and NOTHING else — the whole broker state is unchanged (no `.wrote _ (.publish …)`, no `Out.inline`, `rmsgs`,
+    index and all in-flight records as before) -/
+theorem C08_retransmit_not_forwarded_op_quiet (s : Server) (conn i : Nat) (dup retain : Bool) (id : Nat)
+    (topic payload : Str) (me : Nat) (cid : Str) (hc : assocGet s.connOf conn = some i)
+    (hreg : assocGet s.clients cid = some i) (hopen : InOpen s cid id) (h : RetransmitGates s i id topic)
+    (hd : ∀ m ∈ (getObj s i).inflight, 0 ≤ m.expiry) :
+    step s (.recv conn (.publish 2 dup retain id topic payload me none)) =
+      (s, [Out.wrote (getObj s i).conn (.ack (getObj s i).ver 5 id 0x91)]) := by
+  obtain ⟨pki, hrec, ht, _⟩ := hopen.rec_at hreg
+  exact step_recv_publish_dup_quiet s conn i dup retain id topic payload me pki hc h hrec ht hd
+
+/-- the answer an MQTT 3 publisher sees: the reason code is not on the wire -/
+theorem C08_retransmit_render_v3 (id : Nat) : (WPk.ack 4 5 id 0x91).render = (WPk.ack 4 5 id 0).render := by
+  simp [WPk.render, renderAck]
+
 end Mochi.Broker
